@@ -5,7 +5,7 @@
    eight claim/response types, arbitrary documents fed to the decoders, the
    stand-alone tolerant decoders, and the schema read off the Go struct tags. *)
 From OIDC Require Import Lib Base64 Cipher.
-From OIDC Require Export C12_Json C12_Codec.
+From OIDC Require Export C12_Json C12_Codec C12_Ext.
 
 Definition table := list (list nat * list nat).
 
@@ -46,8 +46,11 @@ Inductive input :=
     (* json.Unmarshal an arbitrary document; when that succeeds, json.Marshal the result *)
 | IDecK (k : kind) (doc : json) (o : oracles)
     (* json.Unmarshal into a stand-alone Audience / Time / Bool / SpaceDelimitedArray / Locales *)
-| ISchema (ty : tyname).
+| ISchema (ty : tyname)
     (* (name, kind, omitempty) of the JSON-visible fields, by reflection *)
+| IExt (x : xin).
+    (* round 11 (C12_Ext.v): constructors, getters, database / text / YAML / GQL
+       codecs, ConcatenateJSON *)
 
 Inductive observed :=
 | OSeal (ct : option string) (dec_same dec_other : option (list nat))
@@ -59,7 +62,8 @@ Inductive observed :=
 | OSchemaX (s : list field) (unknown : list string)
     (* the struct has JSON-visible members of a type the model has no kind for
        (or that encoding/json drops as ambiguous): never equal to the model's answer *)
-| OPanic.
+| OPanic
+| OExt (y : xout).
 
 Definition model (i : input) : observed :=
   match i with
@@ -81,6 +85,7 @@ Definition model (i : input) : observed :=
       end
   | IDecK k doc o => ODecK (res_opt (dec_field_o o k doc))
   | ISchema ty => OSchema (schema_of ty)
+  | IExt x => OExt (xmodel x)
   end.
 
 Definition bytes_eqb := list_eqb Nat.eqb.
@@ -337,6 +342,239 @@ Fixpoint fields_from (o : oracles) (sch : list field) (vals : list fval) (d : ob
   | _, _ => false
   end.
 
+(* ---------- round 11: the property on the extension cases (C12_Ext.v) ---------- *)
+
+Definition dyn_eqb (a b : dyn) : bool :=
+  match a, b with
+  | DNil, DNil | DOther, DOther => true
+  | DStr x, DStr y | DBytes x, DBytes y | DStringer x, DStringer y => String.eqb x y
+  | DInt x, DInt y => Z.eqb x y
+  | DBool x, DBool y => Bool.eqb x y
+  | _, _ => false
+  end.
+
+Definition ostrs_eqb := option_eqb strs_eqb.
+
+Definition olist (o : option (list string)) : list string :=
+  match o with Some l => l | None => [] end.
+
+(* nil, the empty list and a list of empty strings all say "no element" (O1) *)
+Definition blank (o : option (list string)) : bool :=
+  forallb (fun s => String.eqb s "") (olist o).
+
+(* Go's zero time.Time, 0001-01-01T00:00:00Z, as (Unix(), Nanosecond()) *)
+Definition is_zero_time (sec nsec : Z) : bool :=
+  (sec =? -62135596800)%Z && (nsec =? 0)%Z.
+
+(* the name the enum declares for the number n *)
+Definition declared (e : enum) (n : Z) : option string :=
+  if (0 <=? n)%Z && (n <? Z.of_nat (List.length (enum_names e)))%Z
+  then nth_error (enum_names e) (Z.to_nat n) else None.
+
+(* the same name but for the case of its letters: Unicode simple lower-casing
+   (as far as it reaches ASCII) or simple case folding *)
+Definition ci_eq (a b : string) : bool :=
+  String.eqb (lower_norm a) (lower_norm b) || fold_eq a b.
+
+(* the string an accepted enum value may have been read from ... *)
+Definition src_says (s : esrc) : option string :=
+  match s with
+  | SName x | SText x | SYaml true x => Some x
+  | SGql (DStr x) => Some x
+  | SScan (DStr x) | SScan (DBytes x) | SScan (DStringer x) => Some x
+  | SJson (JStr x) => Some x
+  | _ => None
+  end.
+
+(* ... and the plain string forms, in which a declared name must be accepted *)
+Definition src_plain (s : esrc) : option string :=
+  match s with
+  | SScan (DStringer _) => None
+  | _ => src_says s
+  end.
+
+Definition the_addr (v : fval) : addr :=
+  match v with VAddr (Some a) => a | _ => Addr "" "" "" "" "" "" end.
+
+Definition xspec (x : xin) (y : xout) : bool :=
+  match x, y with
+  (* the constructor stores its arguments (iat = now - skew, Go's zero time = the
+     unset Time 0), declares the back-channel logout event (OIDC Back-Channel
+     Logout 1.0, 2.4: a member of that name holding the empty object), and the
+     value it built round-trips like every other value of the type *)
+  | XNewLogout iss sub aud es en jti sid skew now, YNewLogout vals doc back =>
+      match vals with
+      | [VStr i; VStr s; VStrs a; VTime iat; VTime exp; VStr j; VMap ev; VStr sd] =>
+          String.eqb i iss && String.eqb s sub && strs_eqb (olist a) (olist aud) &&
+          (let ns := (now - skew)%Z in
+           if is_zero_time (ns / 1000000000) (ns mod 1000000000) then (iat =? 0)%Z
+           else (iat =? ns / 1000000000)%Z) &&
+          (if is_zero_time es en then (exp =? 0)%Z else (exp =? es)%Z) &&
+          String.eqb j jti && String.eqb sd sid &&
+          option_eqb json_eqb (lookup "http://schemas.openid.net/event/backchannel-logout" ev)
+                     (Some (JObj [])) &&
+          spec_round TLogout vals [] (O [] [] []) doc back
+      | _ => false
+      end
+  (* every UserInfo member is the ID-token member of its name, the custom claims
+     are the same claims in a map of their own, GetAddress is the address or the
+     zero value *)
+  | XUserInfo vals claims, YUserInfo ui cl a indep =>
+      negb (List.length vals =? List.length (schema_of TID)) ||
+      (List.length ui =? List.length (schema_of TUserInfo)) &&
+      forallb (fun f => fval_eqb (get_val (fname f) (schema_of TUserInfo) ui (zero_of (fkind f)))
+                                 (get_val (fname f) (schema_of TID) vals (zero_of (fkind f))))
+              (schema_of TUserInfo) &&
+      obj_eqb cl claims && indep &&
+      addr_eqb a (the_addr (get_val "address" (schema_of TID) vals (VAddr None)))
+  | XGetAddr _ a, YAddr r => addr_eqb r (the_addr (VAddr a))
+  (* database column -> scope list: NULL is no error and no element; a text (as
+     string or bytes) is read without loss: its elements joined by single spaces
+     are the text again; any other dynamic type is an error or the zero value,
+     and a failed Scan leaves the destination as it was or empty *)
+  | XSdaScan init d, YScan ok after =>
+      match d with
+      | DNil => ok && blank after
+      | DStr s | DBytes s => ok && String.eqb (join_sp (olist after)) s
+      | _ => if ok then blank after else ostrs_eqb after init || blank after
+      end
+  (* scope list -> database value -> scope list: the value is the elements
+     joined by single spaces; elements without spaces come back unchanged *)
+  | XSdaValue l, YValue v bs bb =>
+      match v with
+      | Some (DStr s) =>
+          String.eqb s (join_sp (olist l)) &&
+          (negb (forallb space_free (olist l)) ||
+           let good r := match r with
+                         | Some l' => strs_eqb (olist l') (olist l) || (blank l && blank l')
+                         | None => false
+                         end in
+           good bs && good bb)
+      | _ => false
+      end
+  | XFromTime s n, YTime z => if is_zero_time s n then (z =? 0)%Z else (z =? s)%Z
+  | XAsTime ts, YGoTime s n =>
+      if (ts =? 0)%Z then is_zero_time s n else (s =? ts)%Z && (n =? 0)%Z
+  | XNowTime now, YTime z =>
+      if is_zero_time (now / 1000000000) (now mod 1000000000) then (z =? 0)%Z
+      else (z =? now / 1000000000)%Z
+  (* iss is what was set; a custom claim is what the map holds under that name *)
+  | XGetters iss claims key, YGetters ro jtr custom consts =>
+      String.eqb ro iss && String.eqb jtr iss && consts &&
+      match lookup key claims with
+      | None | Some JNull => match custom with None => true | Some _ => false end
+      | Some v => option_eqb json_eqb custom (Some v)
+      end
+  (* one value has one name in every codec; a declared value has its declared
+     name, is reported as declared and is read back from that name; an
+     out-of-range number is not declared and its text is not read back *)
+  | XEnumStr e n, YEnumStr s isa j t v yv g back =>
+      option_eqb json_eqb j (Some (JStr s)) && option_eqb String.eqb t (Some s) &&
+      option_eqb dyn_eqb v (Some (DStr s)) && option_eqb String.eqb yv (Some s) &&
+      String.eqb g (quote s) &&
+      match declared e n with
+      | Some nm => String.eqb s nm && isa && option_eqb Z.eqb back (Some n)
+      | None => negb isa && negb (string_in s (enum_names e)) && option_eqb Z.eqb back None
+      end
+  (* accepted: a declared value whose name is, but for letter case, the text read
+     (SQL NULL: no error, destination untouched or zero); rejected: the text is
+     not a declared name, the destination is untouched or zero *)
+  | XEnumParse e init src, YEnumParse ok after =>
+      if ok then
+        match src_says src with
+        | Some s => match declared e after with Some nm => ci_eq s nm | None => false end
+        | None => match src with
+                  | SScan DNil => (after =? init)%Z || (after =? 0)%Z
+                  | _ => false
+                  end
+        end
+      else ((after =? init)%Z || (after =? 0)%Z) &&
+           match src_plain src with
+           | Some s => negb (string_in s (enum_names e))
+           | None => true
+           end
+  (* the listed values are 0, 1, ... and the listed names are their names *)
+  | XEnumList e, YEnumList vs ns =>
+      (List.length vs =? List.length ns) &&
+      list_eqb Z.eqb vs (map Z.of_nat (seq 0 (List.length vs))) &&
+      list_eqb (option_eqb String.eqb) (map (declared e) vs) (map Some ns) &&
+      (List.length ns =? List.length (enum_names e))
+  (* two compactly written JSON objects (each without duplicate keys): the
+     result is an object text in which every member of the second survives,
+     every member of the first whose name the second does not use survives,
+     and nothing else appears *)
+  | XConcat a b ma mb, YConcat out _ parsed =>
+      match ma, mb with
+      | Some xo, Some yo =>
+          if nodupb (keys xo) && nodupb (keys yo) && ends_with "}"%char a && starts_with "{"%char b then
+            match out, parsed with
+            | Some _, Some (JObj o) =>
+                forallb (fun kv => option_eqb json_eqb (lookup (fst kv) o) (Some (snd kv))) yo &&
+                forallb (fun kv => string_in (fst kv) (keys yo) ||
+                                   option_eqb json_eqb (lookup (fst kv) o) (Some (snd kv))) xo &&
+                forallb (fun kv => option_eqb json_eqb (lookup (fst kv) yo) (Some (snd kv)) ||
+                                   option_eqb json_eqb (lookup (fst kv) xo) (Some (snd kv))) o
+            | _, _ => false
+            end
+          else true
+      | _, _ => true
+      end
+  | _, _ => false
+  end.
+
+Definition oo_eqb {A} (e : A -> A -> bool) := option_eqb (option_eqb e).
+
+Definition xout_eqb (a b : xout) : bool :=
+  match a, b with
+  | YNewLogout v d r, YNewLogout v' d' r' =>
+      list_eqb fval_eqb v v' && option_eqb json_eqb d d' && option_eqb dec_eqb r r'
+  | YUserInfo u c a i, YUserInfo u' c' a' i' =>
+      list_eqb fval_eqb u u' && obj_eqb c c' && addr_eqb a a' && Bool.eqb i i'
+  | YAddr a, YAddr a' => addr_eqb a a'
+  | YScan k r, YScan k' r' => Bool.eqb k k' && ostrs_eqb r r'
+  | YValue v s t, YValue v' s' t' =>
+      option_eqb dyn_eqb v v' && oo_eqb strs_eqb s s' && oo_eqb strs_eqb t t'
+  | YTime z, YTime z' => Z.eqb z z'
+  | YGoTime s n, YGoTime s' n' => Z.eqb s s' && Z.eqb n n'
+  | YGetters r j c k, YGetters r' j' c' k' =>
+      String.eqb r r' && String.eqb j j' && option_eqb json_eqb c c' && Bool.eqb k k'
+  | YEnumStr s i j t v y g b, YEnumStr s' i' j' t' v' y' g' b' =>
+      String.eqb s s' && Bool.eqb i i' && option_eqb json_eqb j j' && option_eqb String.eqb t t' &&
+      option_eqb dyn_eqb v v' && option_eqb String.eqb y y' && String.eqb g g' && option_eqb Z.eqb b b'
+  | YEnumParse k z, YEnumParse k' z' => Bool.eqb k k' && Z.eqb z z'
+  | YEnumList v n, YEnumList v' n' => list_eqb Z.eqb v v' && strs_eqb n n'
+  | YConcat o f p, YConcat o' f' p' =>
+      option_eqb String.eqb o o' && String.eqb f f' && option_eqb json_eqb p p'
+  | YPanic, YPanic => true
+  | _, _ => false
+  end.
+
+(* decision-path classes of the extension (0 = first-guard reject) *)
+Definition xpath (x : xin) (y : xout) : nat :=
+  match x, y with
+  | XNewLogout _ _ _ _ _ _ _ _ _, _ => 30
+  | XUserInfo _ _, _ => 31
+  | XGetAddr _ (Some _), _ => 32
+  | XGetAddr _ None, _ => 33
+  | XSdaScan _ _, YScan true (Some (_ :: _)) => 34
+  | XSdaScan _ _, YScan true _ => 35
+  | XSdaScan _ _, _ => 36
+  | XSdaValue _, _ => 37
+  | XFromTime _ _, _ => 38
+  | XAsTime _, _ => 39
+  | XNowTime _, _ => 40
+  | XGetters _ _ _, _ => 41
+  | XEnumStr _ _, YEnumStr _ true _ _ _ _ _ _ => 42
+  | XEnumStr _ _, _ => 43
+  | XEnumParse _ _ _, YEnumParse true _ => 44
+  | XEnumParse _ _ (SName _ | SText _ | SYaml true _ | SGql (DStr _) | SScan (DStr _ | DBytes _ | DStringer _) | SJson (JStr _)), _ => 45
+  | XEnumParse _ _ _, _ => 46
+  | XEnumList _, _ => 49
+  | XConcat _ _ _ _, YConcat (Some _) _ (Some _) => 47
+  | XConcat _ _ _ _, YConcat (Some _) _ None => 48
+  | XConcat _ _ _ _, _ => 0
+  end.
+
 (* The property, on what the implementation answered.
    Sealing: Decrypt(Encrypt p k) k = p; Encrypt succeeds for every valid key size;
    under a different key the plaintext does not come back (checked for |p| >= 8
@@ -385,6 +623,7 @@ Definition spec (i : input) (o : observed) : bool :=
   | IDecK k doc orc, ODecK r =>
       match r with None => true | Some v => from_doc orc k (Some doc) v end
   | ISchema _, (OSchema _ | OSchemaX _ _) => true
+  | IExt x, OExt y => xspec x y
   | _, _ => false
   end.
 
@@ -398,6 +637,7 @@ Definition obs_eqb (a b : observed) : bool :=
   | ODecK r1, ODecK r2 => option_eqb fval_eqb r1 r2
   | OSchema s1, OSchema s2 => list_eqb field_eqb s1 s2
   | OPanic, OPanic => true
+  | OExt a, OExt b => xout_eqb a b
   | _, _ => false
   end.
 
@@ -432,6 +672,7 @@ Definition path (i : input) (o : observed) : nat :=
       | Some v => if is_empty v then 19 else 20
       end
   | ISchema _, _ => 21
+  | IExt x, OExt y => xpath x y
   | _, _ => 0
   end.
 
